@@ -273,6 +273,11 @@ def _families():
             for flag_where in ('cli-flag', 'main-flag', 'gcp-flag'):
                 for lst in ('unrelated', 'empty'):
                     yield ('flag-beside-list', (b, how, flag_where, lst))
+    # DELTA_FEATURES without a leading '+' is the whole list of features - also when it is empty or blank
+    # ("use DELTA_FEATURES=+ to go back to just the features from git config")
+    for where in ('main', 'arg', 'both'):
+        for blank in ('', ' '):
+            yield ('empty-env-feature-list', (where, blank))
     # zero is a value like any other (no truncation, no tab expansion ...): a source that says 0 has set the option
     for o in ('max-line-length', 'tabs', 'diff-stat-align-width'):
         for where in ('main', 'gcp-new', 'gcp-old', 'feature-main', 'last-feature'):
@@ -528,6 +533,21 @@ def build(family, params, defaults):
         p.expected = 'true' if truth else 'false'
         p.why = 'GIT_CONFIG_PARAMETERS (git -c delta.%s=%s) overrides the [delta] section; %r is one of git\'s spellings of %s' % (o, spelling, spelling, truth)
         p.nsources = 2
+    elif family == 'empty-env-feature-list':
+        where, blank = params
+        o = 'file-modified-label'
+        S = sentinels(o, 6)
+        p = Placement(o)
+        p.sections['f1'] = {o: S[0]}
+        p.sections['f2'] = {o: S[1]}
+        if where in ('main', 'both'):
+            p.main['features'] = 'f1'
+        if where in ('arg', 'both'):
+            p.features_arg = 'f2'
+        p.env_features = blank
+        p.expected = defaults.get(o, '')
+        p.why = 'DELTA_FEATURES=%r (no leading +) is the list of enabled features: none; the features named in %s are not enabled' % (blank, where)
+        p.nsources = 2
     elif family == 'zero-is-a-value':
         o, where = params
         p = Placement(o)
@@ -709,7 +729,7 @@ def plan(ctx):
         rng = ctx.rng('c13')
         # the small families about interactions between sources (added after seeded changes slipped through a uniform
         # sample) run completely every time; the big product families are sampled
-        small = {'flag-beside-list', 'gcp-bool-spelling', 'gcp-value-shape', 'alias-24-bit-color', 'zero-is-a-value', 'builtin-named-section', 'no-gitconfig-equals-empty', 'source-beside-unrelated-flag', 'custom-before-builtin', 'named-before-flags'}
+        small = {'flag-beside-list', 'gcp-bool-spelling', 'gcp-value-shape', 'alias-24-bit-color', 'zero-is-a-value', 'empty-env-feature-list', 'builtin-named-section', 'no-gitconfig-equals-empty', 'source-beside-unrelated-flag', 'custom-before-builtin', 'named-before-flags'}
         pinned = [it for it in items if fam[it[1]][0] in small]
         rest = [it for it in items if fam[it[1]][0] not in small]
         rng.shuffle(rest)
